@@ -145,7 +145,10 @@ func worker(results chan<- result, files <-chan string, wg *sync.WaitGroup) {
 		res.file = file
 		f, err := os.Open(file)
 		if err != nil {
+			// There is no file to look at, report the error rather than carrying on with a nil file
 			res.err = err
+			results <- res
+			continue
 		}
 		info, _ := f.Stat() //nolint: errcheck // The file is already open here so we can ignore the error
 		// Skip directories
